@@ -732,7 +732,12 @@ func (in *interp) eval(t *Tree) (Val, *rerr) {
 		if (t.S == "AND" || t.S == "OR") && l.T == tBool {
 			if l.B == (t.S == "OR") { // short circuit: the right operand is not evaluated
 				in.label("short-circuit:" + t.S)
-				if vt, ok := staticType(t.A[1], in.scopeType); !ok || vt != tBool {
+				// An error instead of the value is accepted only when the operator's own operand
+				// check can see the defect without evaluating the skipped operand: its type is
+				// not boolean, or it is a reference, unary, arithmetic or function expression
+				// whose type has to be derived from ill-typed parts. A skipped comparison or
+				// AND/OR is boolean whatever it contains: there the short-circuit value is due.
+				if vt, ok := staticType(t.A[1], in.scopeType); (!ok || vt != tBool) && !alwaysBool(t.A[1]) {
 					in.skippedIll = true
 				}
 				return l, nil
@@ -1036,6 +1041,23 @@ func (in *interp) snap() {
 
 // staticType derives the type of t for given reference types (no values, both sides of
 // AND/OR checked). ok=false: ill-typed or not determined by the documentation.
+// alwaysBool: a comparison, a regex match or AND/OR (possibly inside a lambda wrapper) has type
+// boolean whatever its operands are.
+func alwaysBool(t *Tree) bool {
+	switch t.K {
+	case "bool":
+		return true
+	case "lam":
+		return alwaysBool(t.A[0])
+	case "bin":
+		switch t.S {
+		case "==", "!=", "<", "<=", ">", ">=", "=~", "!~", "AND", "OR":
+			return true
+		}
+	}
+	return false
+}
+
 func staticType(t *Tree, env func(string) VT) (VT, bool) {
 	switch t.K {
 	case "int":
